@@ -504,9 +504,12 @@ MClose(w) ==                 \* store_impl.rs:495-511 (guard: dispatch_tx lock f
     THEN StartSend([w EXCEPT !.chan["D"].open = FALSE, !.lk["tx"] = w.t], "D", EXIT, "close")
     ELSE Goto(w, "closed")
 
-MClosed(w) ==                \* close() has returned
-    IF CurOp(w).op = "close" THEN OpEnd(w, "ok")
-    ELSE IF "F2" \in Defects \/ w.pool # "present" THEN Park(w, "stop.pool", "stop.pool", 0)
+MClosed(w) ==                \* close() has returned (the sender lock is free again); stop() goes on separately:
+    IF CurOp(w).op = "close" THEN OpEnd(w, "ok")       \* what it finds in the pool slot is a later observation
+    ELSE Park(w, "stop.chk", "stop.closed", 0)
+
+MStopChk(w) ==               \* stop(): look at the pool slot
+    IF "F2" \in Defects \/ w.pool # "present" THEN Park(w, "stop.pool", "stop.pool", 0)
     ELSE Park(w, "stop.drain", "stop.drain", 0)     \* stop(): wait for the backlog first (fix of F2)
 
 MStopPool(w) ==              \* stop / drop_store, store_impl.rs:519-527: take the pool
@@ -655,6 +658,7 @@ Micro(w) ==
       [] p = "spop"      -> MTry2(w)
       [] p = "sent"      -> MSent(w)
       [] p = "closed"    -> MClosed(w)
+      [] p = "stop.chk"  -> MStopChk(w)
       [] p = "stop.drain" -> Park(w, "stop.pool", "stop.pool", 0)      \* pool.join_timeout returned (guard: idle)
       [] p = "stop.pool" -> MStopPool(w)
       [] p = "join"      -> MJoin(w)
